@@ -240,6 +240,20 @@ Section Enter.
   Proof. unfold bs. apply slice_from_app_len. Qed.
 End Enter.
 
+Lemma ident_ok_tl_of t p k tn len :
+  (forall k' w, prim_tag t p = Some (k', w) -> k = k' /\ tn = w) -> ident_ok t p (tl_of p 0 k tn len) = true.
+Proof.
+  intros Hw. unfold ident_ok, tl_of. destruct (prim_tag t p) as [[k' w]|]; [|reflexivity].
+  destruct (Hw k' w eq_refl) as [-> ->].
+  destruct (p_tag p) as [n|]; cbn [t_cls t_num t_constr]; rewrite ?Z.eqb_refl, Bool.eqb_reflx; reflexivity.
+Qed.
+
+Ltac prim_tag_side :=
+  let k0 := fresh "k" in let w0 := fresh "w" in let Hw0 := fresh "Hw" in
+  intros k0 w0 Hw0; cbn [prim_tag] in Hw0; cbv zeta in Hw0;
+  repeat match type of Hw0 with context [if ?c then _ else _] => destruct c end;
+  inversion Hw0; split; reflexivity.
+
 Definition rt_ok (t : ty) : Prop :=
   forall p v bs, ok t p v = true -> enc t p v = Ok bs -> zlen bs < 2 ^ 32 ->
     dec t p bs = Ok (canon t false v) /\ shaped p bs.
@@ -272,6 +286,7 @@ Ltac open_prim Hn Ht Hs :=
       rewrite parse_finish0 by (try assumption; try lia; pose proof (zlen_nonneg content); lia);
       cbn [bind];
       rewrite (enter_range dec p c k tn content);
+      rewrite ident_ok_tl_of by prim_tag_side; cbn [negb];
       try rewrite (enter_content p c k tn content); cbn [bind]
     | rewrite <- finish_hdr_of by exact Hn; apply finish_shaped; try assumption; lia ]
   end.
@@ -478,7 +493,8 @@ Proof.
   rewrite (enter_step dec p 0 true (seq_tag p) content Hn Ht Hc0 Hst Hcl) by exact I.
   unfold dec_body. pose proof (zlen_nonneg content).
   rewrite parse_finish0 by (try assumption; lia). cbn [bind].
-  rewrite (enter_range dec p 0 true (seq_tag p) content). fold H.
+  rewrite (enter_range dec p 0 true (seq_tag p) content).
+  rewrite ident_ok_tl_of by prim_tag_side; cbn [negb]. fold H.
   subst content. rewrite chunks_concat; [|exact HF|].
   - cbn [bind]. rewrite Hgo. reflexivity.
   - rewrite app_length. pose proof (concat_len_ge bl HF). unfold zlen in *. lia.
@@ -672,6 +688,10 @@ Proof.
     rewrite Estep. unfold dec_body. pose proof (zlen_nonneg inner).
     unfold H. rewrite parse_finish0 by (try assumption; lia). cbn [bind].
     rewrite (enter_range dec (no_explicit p) 0 true 0 inner).
+    assert (Hid : ident_ok (TChoice l) p (tl_of (no_explicit p) 0 true 0 (zlen inner)) = true).
+    { unfold ident_ok, tl_of. cbn [prim_tag no_explicit p_tag]. rewrite Et.
+      cbn [t_cls t_num t_constr Bool.eqb]. rewrite !Z.eqb_refl. reflexivity. }
+    rewrite Hid. cbn [negb].
     rewrite Ho, Et.
     rewrite (enter_content (no_explicit p) 0 true 0 inner). cbn [bind].
     destruct (shaped_parse ap inner [] Hsh Hil) as [tal [off [Hpar [Hoff [Hlen2 [Hl0 Htg]]]]]].
@@ -695,7 +715,8 @@ Proof.
     rewrite explicit_cond_false by exact Hn.
     unfold dec_body. rewrite Hpar. cbn [bind].
     replace (off + t_len tal >? zlen bs) with false by lia.
-    rewrite Ho, Et. cbn [bind].
+    unfold ident_ok. cbn [prim_tag]. rewrite Et. cbn [negb].
+    rewrite Ho. cbn [bind].
     assert (Sl : slice_from bs 0 = Ok bs).
     { change bs with ([] ++ bs) at 1. apply (slice_from_app_len [] bs). }
     rewrite Sl. cbn [bind]. rewrite (Htg _ Htagj).
@@ -892,7 +913,8 @@ Proof.
   rewrite (enter_step dec p 0 true (seq_tag p) content Hn Ht Hc0 Hst Hcl) by exact I.
   unfold dec_body. pose proof (zlen_nonneg content).
   rewrite parse_finish0 by (try assumption; lia). cbn [bind].
-  rewrite (enter_range dec p 0 true (seq_tag p) content). fold H.
+  rewrite (enter_range dec p 0 true (seq_tag p) content).
+  rewrite ident_ok_tl_of by prim_tag_side; cbn [negb]. fold H.
   cbn [canon]. fold canon_seq_go.
   pose proof (seq_loop_rt l p (H ++ content) Hm Ho Hs l vs [] [] (length (H ++ content)) 0%nat H content
                 eq_refl IH Hv Ec eq_refl) as L.
